@@ -1,6 +1,10 @@
 use std::cmp::min;
 
+#[cfg(not(dandavison_delta_verif_shuttle))]
 use lazy_static::lazy_static;
+// Verification hook: re-initialised per simulated execution.
+#[cfg(dandavison_delta_verif_shuttle)]
+use shuttle::lazy_static;
 
 use crate::cli;
 use crate::config::{delta_unreachable, Config};
